@@ -95,6 +95,8 @@ def route_expr(route, bs, off):
     if route == "replace":
         return '%s.replace("#", %s)' % (q("#" + text[1:]), q(text[0]))
     if route == "utf8":
+        if n > 200:      # a vector literal holds at most 255 elements: the bytes come from rebuilding the text character by character
+            return "String.from_utf8(rebuild(%s, %d).to_bytes())" % (q("X" * off + text), off) if off else "String.from_utf8(%s.to_bytes())" % q(text)
         return "String.from_utf8([%s])" % ", ".join(map(str, bs))
     if route == "join":
         return "rebuild(%s, %d)" % (q("X" * off + text), off)
@@ -110,10 +112,11 @@ def ident_part(rep, binaries, tier):
                   on_line=lambda t, o: cases.append(o) if t == "IDENT" else None)
     if res.violation:
         rep.violation("StrIdent.tla: TLC reports\n" + res.violation[:1500], {"tlc": res.violation})
-    per = 150
     progs = []
-    for i in range(0, len(cases), per):
-        chunk = cases[i:i + per]
+    short = [x for x in cases if x["c"]["len"] <= 200]
+    long_ = [x for x in cases if x["c"]["len"] > 200]
+    chunks = [short[i:i + 150] for i in range(0, len(short), 150)] + [long_[i:i + 12] for i in range(0, len(long_), 12)]
+    for chunk in chunks:
         lines = [IDENT_PRELUDE]
         for x in chunk:
             c = x["c"]
